@@ -63,8 +63,11 @@ Definition stamp (m : master) (r : Z) : Z := ma_t m + (r - ma_r m) * num / den.
 Definition interrupt_wake (m : master) (r : Z) (c : comp) : list (comp * Z) :=
   upd c (match lookup c (mw m) with Some w => Z.min (stamp m r) w | None => stamp m r end) (mw m).
 
+(* ceiling division: a timer never fires before the real-valued deadline *)
+Definition cdiv (a b : Z) : Z := (a + b - 1) / b.
+
 (* the real time at which the tick for simulation time [when] is due *)
-Definition due_real (m : master) (when : Z) : Z := ma_r m + (when - ma_t m) * den / num.
+Definition due_real (m : master) (when : Z) : Z := ma_r m + cdiv ((when - ma_t m) * den) num.
 
 (* _do_tick up to the wait: choose what to wait for *)
 Definition plan (m : master) (r : Z) : master * list mout :=
@@ -137,7 +140,7 @@ Definition step (m : master) (r : Z) (i : min) : master * list mout :=
       match mp m with
       | PTick st when =>
           (* StopComponent to every component, error set, the running tick is released *)
-          ({| mp := PStopped; mw := mw m; ma_t := ma_t m; ma_r := ma_r m; m_err := true |}, map OStop comps)
+          ({| mp := PStopped; mw := mw m; ma_t := when; ma_r := r; m_err := true |}, map OStop comps)
       | PInit => (m, [OFail])
       | _ => ({| mp := mp m; mw := mw m; ma_t := ma_t m; ma_r := ma_r m; m_err := true |}, map OStop comps)
       end
